@@ -290,10 +290,16 @@ func parseURLs(vars []RvInstruction, device bool) (urls []*url.URL) { //nolint:g
 			}
 
 		case RVDns:
-			_ = cbor.Unmarshal(v.Value, &dnsAddr)
+			var dns string
+			if err := cbor.Unmarshal(v.Value, &dns); err == nil && dns != "" {
+				dnsAddr = dns
+			}
 
 		case RVIPAddress:
-			_ = cbor.Unmarshal(v.Value, &ipAddr)
+			var ip net.IP
+			if err := cbor.Unmarshal(v.Value, &ip); err == nil && len(ip) > 0 {
+				ipAddr = ip
+			}
 		}
 	}
 
